@@ -370,6 +370,9 @@ func (cr *cursor) updateNumSequence() bool {
 			// NU (NU | SY | IS)* (CL | CP) × (PO | PR)
 			return true
 		}
+		if cr.line == ucd.BreakNU { // a digit starts a new sequence
+			cr.numSequence = inNumSequence
+		}
 		return false
 	default:
 		panic("exhaustive switch")
